@@ -2,6 +2,8 @@
 
 package c11
 
+import "github.com/risor-io/risor/object"
+
 // Without the map seam (a build that does not go through /verif/run) Go's map order is not owned:
 // every configuration is constructed `repetitions` times instead and the run is reported as capped.
 
